@@ -1,3 +1,200 @@
-From PV Require Import Lib.Base Model.Policy.
-Theorem C07_stub : True. Proof. exact I. Qed.
-Print Assumptions C07_stub.
+(* Props/C07.v — an IdP never releases attributes beyond what its policy allows.
+   Every theorem quantifies over EVERY regex matcher [matches], attribute map
+   [lname], compiled policy [p], SP [sp] with its metadata view [md], and
+   identity (ordered list of (name, values)); proofs are by induction over
+   those lists (Proofs/Policy_lemmas.v). *)
+From PV Require Import Lib.Base Gen.EntityCat Model.Policy Proofs.Policy_lemmas.
+Open Scope N_scope.
+
+(* (1) what Assertion.apply_policy leaves in the assertion dict *)
+Theorem C07_release_subset :
+  forall matches lname (p : cpolicy) (identity : ava) (sp : str) (md : option mdview) (out : ava),
+    apply_policy matches lname p identity sp md = Ok out ->
+    let rq := fst (declared md) in
+    let op := snd (declared md) in
+    (* names are identity keys, values identity values *)
+    (forall n vs, In (n, vs) out -> exists ivs, In (n, ivs) identity /\ incl vs ivs) /\
+    (* attribute_restrictions apply: lower-cased name is one of their keys; with a pattern list every value matches one *)
+    (forall r, get_attribute_restrictions p sp = Ok (Some r) -> r <> [] ->
+       forall n vs, In (n, vs) out ->
+         exists rr, lookup (lower n) r = Some rr /\
+           forall rxs, rr = Some rxs -> forall v, In v vs -> exists rx, In rx rxs /\ matches rx v = true) /\
+    (* the entity-category rules yield an allowance: every released name is in it *)
+    (forall allow, get_entity_categories p sp md rq = Ok allow -> allow <> [] ->
+       forall n vs, In (n, vs) out -> In (lower n) allow) /\
+    (* otherwise, when declarations exist: every name and every value is covered by one of them *)
+    (get_entity_categories p sp md rq = Ok [] -> rq ++ op <> [] ->
+       forall n vs, In (n, vs) out ->
+         (exists d, In d (rq ++ op) /\ decl_names lname d n) /\
+         (forall v, In v vs -> exists d, In d (rq ++ op) /\ decl_names lname d n /\
+                                         (decl_values d = [] \/ In v (decl_values d)))).
+Proof. intros matches lname p identity sp md out H. exact (apply_policy_permitted matches lname p identity sp md out H). Qed.
+Print Assumptions C07_release_subset.
+
+(* the same for the functions the policy is made of *)
+Theorem C07_policy_filter :
+  forall matches lname p a sp md rq op out,
+    pfilter matches lname p a sp md rq op = Ok out -> permitted_for matches lname p sp md rq op a out.
+Proof. exact pfilter_permitted. Qed.
+Print Assumptions C07_policy_filter.
+
+Theorem C07_filter_attribute_value_assertions :
+  forall matches a r n vs, r <> [] -> In (n, vs) (favs matches a (Some r)) ->
+    (exists vs0, In (n, vs0) a /\ incl vs vs0) /\
+    exists rr, lookup (lower n) r = Some rr /\ values_match matches rr vs.
+Proof.
+  intros matches a r n vs Hne Hin. split; [eapply favs_sub; exact Hin|eapply favs_restricted; eassumption].
+Qed.
+Print Assumptions C07_filter_attribute_value_assertions.
+
+Theorem C07_filter_on_attributes :
+  forall lname a rq op fail res, filter_on_attributes lname a rq op fail = Ok res ->
+    forall n vs, In (n, vs) res -> covered lname (rq ++ op) a n vs.
+Proof. intros lname a rq op fail res H. exact (filter_on_attributes_inv lname a rq op fail res H). Qed.
+Print Assumptions C07_filter_on_attributes.
+
+(* (2) every outcome.  FULL STATEMENT (does NOT hold for create_authn_response on the unchanged code):
+
+     forall matches lname p identity sp md,
+       outcome_ok matches lname p sp md identity (authn_response matches lname p identity sp md)
+
+   i.e. the construction ends in an error (no AttributeStatement) or in an assertion
+   satisfying (1), including when a required attribute / value is missing. *)
+Definition no_rx (_ _ : str) : bool := false.
+Definition no_ln (_ _ : str) : option str := None.
+Definition w_sp : str := s2l "https://sp0.example.org/sp".
+Definition w_decl : decl := {| d_name := s2l "urn:oid:2.5.4.4"; d_nf := None; d_fn := Some (s2l "sn"); d_vals := [] |}.
+Definition w_md : option mdview := Some {| m_req := Some ([w_decl], []); m_ecs := [] |}.
+Definition w_raw : rawpolicy :=
+  Some [(DEFAULT, Some {| r_ec := None;
+                          r_ar := Some (Some [(s2l "givenName", None); (s2l "sn", None)]);
+                          r_fail := None |})].
+Definition w_ar : restrictions := [(s2l "givenname", None); (s2l "sn", None)].
+Definition w_pol : cpolicy := Some [(DEFAULT, Some {| s_ec := None; s_ar := Some (Some w_ar); s_fail := None |})].
+Definition w_ident : ava := [(s2l "givenName", [s2l "Anna"]); (s2l "secret", [s2l "s3cret"])].
+
+Theorem C07_every_outcome_refuted :
+  exists matches lname p identity sp md a,
+    authn_response matches lname p identity sp md = Asserted a /\
+    ~ permitted matches lname p sp md identity a.
+Proof.
+  exists no_rx, no_ln, w_pol, w_ident, w_sp, w_md, w_ident. split; [vm_compute; reflexivity|].
+  intros [_ [Har _]].
+  destruct (Har w_ar) with (n := s2l "secret") (vs := [s2l "s3cret"]) as [rr [Hl _]].
+  - vm_compute; reflexivity.
+  - discriminate.
+  - right; left; reflexivity.
+  - vm_compute in Hl. discriminate.
+Qed.
+Print Assumptions C07_every_outcome_refuted.
+
+(* the witness is a configured policy, and the SP gets the secret attribute *)
+Example C07_witness_is_configurable :
+  compile w_raw = Ok w_pol /\
+  restrict no_rx no_ln w_pol w_ident w_sp w_md = Err MissingValue /\
+  authn_response no_rx no_ln w_pol w_ident w_sp w_md = Asserted w_ident /\
+  (* had the required attribute been there, the secret would have been withheld *)
+  authn_response no_rx no_ln w_pol ((s2l "sn", [s2l "X"]) :: w_ident) w_sp w_md = Asserted [(s2l "sn", [s2l "X"])].
+Proof. vm_compute. repeat split; reflexivity. Qed.
+Print Assumptions C07_witness_is_configurable.
+
+(* partial: every run in which the requirements can be met (restrict does not raise MissingValue) *)
+Theorem C07_every_outcome_partial :
+  forall matches lname p identity sp md,
+    restrict matches lname p identity sp md <> Err MissingValue ->
+    outcome_ok matches lname p sp md identity (authn_response matches lname p identity sp md).
+Proof. exact authn_response_partial. Qed.
+Print Assumptions C07_every_outcome_partial.
+
+(* the defect exactly: the only assertion outside the permitted set is the whole, untouched
+   identity on the swallowed-MissingValue path — and on that path it is ALWAYS what is asserted *)
+Theorem C07_every_outcome_characterised :
+  forall matches lname p identity sp md,
+    (forall a, authn_response matches lname p identity sp md = Asserted a ->
+       permitted matches lname p sp md identity a \/
+       (restrict matches lname p identity sp md = Err MissingValue /\ a = identity)) /\
+    (restrict matches lname p identity sp md = Err MissingValue ->
+       authn_response matches lname p identity sp md = Asserted identity).
+Proof.
+  intros matches lname p identity sp md. split.
+  - intros a. apply authn_response_characterised.
+  - apply authn_response_missing_value.
+Qed.
+Print Assumptions C07_every_outcome_characterised.
+
+(* without best_effort (what setup_assertion does when the flag is honoured) and for the
+   attribute authority the every-outcome statement holds in full *)
+Theorem C07_setup_assertion_without_best_effort :
+  forall matches lname p identity sp md,
+    outcome_ok matches lname p sp md identity (setup_assertion matches lname p identity sp md false).
+Proof. exact setup_assertion_no_best_effort. Qed.
+Print Assumptions C07_setup_assertion_without_best_effort.
+
+Theorem C07_attribute_response_every_outcome :
+  forall matches lname p identity sp md,
+    outcome_ok matches lname p sp md identity (attribute_response matches lname (Some p) identity sp md).
+Proof. exact attribute_response_every_outcome. Qed.
+Print Assumptions C07_attribute_response_every_outcome.
+
+(* observation (not alarmed on): with NO aa policy configured create_attribute_response applies
+   no policy object at all, not even the SP's declarations *)
+Theorem C07_attribute_response_no_policy :
+  forall matches lname identity sp md,
+    attribute_response matches lname None identity sp md = Asserted identity.
+Proof. exact attribute_response_no_policy. Qed.
+Print Assumptions C07_attribute_response_no_policy.
+
+(* corner (upstream semantics, not alarmed on): entity categories configured, the SP is entitled
+   to nothing, declares nothing, no attribute_restrictions: no category filter is applied *)
+Theorem C07_ec_entitled_to_nothing :
+  forall matches lname p a sp md,
+    get_entity_categories p sp md [] = Ok [] ->
+    get_attribute_restrictions p sp = Ok None ->
+    pfilter matches lname p a sp md [] [] = Ok a.
+Proof. exact ec_entitled_to_nothing. Qed.
+Print Assumptions C07_ec_entitled_to_nothing.
+
+Definition ec_only (m : string) : rawpolicy :=
+  Some [(DEFAULT, Some {| r_ec := Some [s2l m]; r_ar := None; r_fail := None |})].
+Definition plain_md : option mdview := Some {| m_req := None; m_ecs := [] |}.
+Definition run_raw (raw : rawpolicy) (identity : ava) (md : option mdview) : result ava :=
+  do p <- compile raw; restrict no_rx no_ln p identity w_sp md.
+
+(* with today's regenerated tables: at_egov_pvp2 has no always-released row, so an SP without
+   categories gets everything; edugain has one, so the same SP gets eduPersonTargetedID only;
+   a CoCo SP gets mail only if it REQUIRES it *)
+Example C07_ec_corner_on_todays_tables :
+  let ident := [(s2l "eduPersonTargetedID", [s2l "t"]); (s2l "mail", [s2l "a@b"]); (s2l "secret", [s2l "s"])] in
+  let coco := s2l "http://www.geant.net/uri/dataprotection-code-of-conduct/v1" in
+  let mail rq := {| d_name := s2l "urn:oid:0.9.2342.19200300.100.1.3"; d_nf := None; d_fn := Some (s2l "mail"); d_vals := [] |} in
+  run_raw (ec_only "at_egov_pvp2") ident plain_md = Ok ident /\
+  run_raw (ec_only "edugain") ident plain_md = Ok [(s2l "eduPersonTargetedID", [s2l "t"])] /\
+  run_raw (ec_only "edugain") ident (Some {| m_req := Some ([], [mail tt]); m_ecs := [coco] |})
+    = Ok [(s2l "eduPersonTargetedID", [s2l "t"])] /\
+  run_raw (ec_only "edugain") ident (Some {| m_req := Some ([mail tt], []); m_ecs := [coco] |})
+    = Ok [(s2l "eduPersonTargetedID", [s2l "t"]); (s2l "mail", [s2l "a@b"])].
+Proof. vm_compute. repeat split; reflexivity. Qed.
+Print Assumptions C07_ec_corner_on_todays_tables.
+
+(* the regenerated RELEASE / ONLY_REQUIRED maps of every module, compiled as Policy.compile does,
+   are (as sets, per module and key) the documented entitlements *)
+Theorem C07_entity_category_tables : tables_equiv compiled_tables documented_ec = true.
+Proof. exact ec_tables_as_documented. Qed.
+Print Assumptions C07_entity_category_tables.
+
+(* non-vacuity: all three filters bite on one concrete configuration *)
+Definition mkd (n f : string) (vs : list (option str)) : decl :=
+  {| d_name := s2l n; d_nf := None; d_fn := Some (s2l f); d_vals := vs |}.
+Example C07_hypotheses_satisfiable :
+  let rx (r v : str) := str_eqb r (s2l "^a") && match v with 97 :: _ => true | _ => false end in
+  let raw := Some [(DEFAULT, Some {| r_ec := None;
+                                     r_ar := Some (Some [(s2l "Mail", Some [s2l "^a"]); (s2l "givenName", None); (s2l "secret", None)]);
+                                     r_fail := Some false |})] in
+  let md := Some {| m_req := Some ([mkd "urn:oid:2.5.4.42" "givenName" []; mkd "urn:oid:2.5.4.4" "sn" []],
+                                    [mkd "urn:oid:0.9.2342.19200300.100.1.3" "MAIL" []]);
+                    m_ecs := [] |} in
+  let ident := [(s2l "givenName", [s2l "Anna"]); (s2l "mail", [s2l "a@x"; s2l "b@x"]); (s2l "secret", [s2l "s"])] in
+  exists p, compile raw = Ok p /\
+    apply_policy rx no_ln p ident w_sp md = Ok [(s2l "givenName", [s2l "Anna"]); (s2l "mail", [s2l "a@x"])].
+Proof. eexists. split; vm_compute; reflexivity. Qed.
+Print Assumptions C07_hypotheses_satisfiable.
